@@ -37,6 +37,7 @@ func init() {
 	register("C04.a", ruleC04a)
 	register("C04.b", ruleC04b)
 	register("C14.p", ruleC14p)
+	register("C11.p", ruleC11p)
 }
 
 type hunk struct {
@@ -527,15 +528,29 @@ var directiveParser = map[string]bool{
 // ruleC14p: what MakeFormat reproduces is the state left by fmt's directive
 // parser; the round trip closes only if the fork's parser is that parser.
 func ruleC14p(c *Ctx) []*report.Result {
-	r := report.NewResult("C14.p", "the directive parser of the fork (doPrintf's flag/width/precision scanning, parsenum, intFromArg, argNumber, parseArgNumber, tooLarge, clearflags, init and the Flag/Width/Precision accessors) is, in the import base, the standard library's (Engine C restricted to these functions): a directive rebuilt by MakeFormat is parsed back into the state it was built from, by the library's own printer as by fmt's", 9)
+	return c.engineCRestricted("C14.p", "the directive parser of the fork (doPrintf's flag/width/precision scanning, parsenum, intFromArg, argNumber, parseArgNumber, tooLarge, clearflags, init and the Flag/Width/Precision accessors) is the standard library's (Engine C restricted to these functions): a directive rebuilt by MakeFormat is parsed back into the state it was built from, by the library's own printer as by fmt's", 9, directiveParser)
+}
+
+// panicContainment: fmt's recovery routine. Which panics it contains (all,
+// a nil receiver included) and which it lets through (a panic raised while a
+// panic value is being printed) is fmt's decision, statement by statement.
+var panicContainment = map[string]bool{"*pp.catchPanic": true}
+
+func ruleC11p(c *Ctx) []*report.Result {
+	return c.engineCRestricted("C11.p", "the recovery routine deferred around every user method (catchPanic) is, instrumentation erased, the standard library's statement by statement (Engine C restricted to it): the nil-receiver shortcut comes before the re-raise of a nested panic, the panic report is bracketed as fmt does", 1, panicContainment)
+}
+
+// engineCRestricted is Engine C (a2, or a3(ii) when the recorded patch is
+// not current) for a named set of imported functions.
+func (c *Ctx) engineCRestricted(id, text string, floor int, set map[string]bool) []*report.Result {
+	r := report.NewResult(id, text, floor)
 	tmp := report.NewResult("x", "", 0)
 	base, stale := c.reconstructBaseStale(tmp)
 	for _, f := range tmp.Findings {
 		r.Fail(f.Construct, f.Pos, f.Msg, nil, "")
 	}
+	only := func(k string) bool { return set[k] }
 	if stale["print.go"] {
-		// the recorded patch is not current: compare the fork's functions,
-		// instrumentation erased, with the reference directly
 		cur, err := os.ReadFile(filepath.Join(c.P.Dir, "internal/rfmt/print.go"))
 		a := &auditor{own: ownNames(filepath.Join(c.P.Dir, "internal/rfmt"))}
 		fork, err2 := a.auditFuncs("print.go", string(cur), "fork")
@@ -543,16 +558,21 @@ func ruleC14p(c *Ctx) []*report.Result {
 			r.Undecide("cannot parse print.go")
 			return []*report.Result{r}
 		}
-		sub := map[string][]string{}
-		for k, v := range fork {
-			if directiveParser[k] {
-				sub[k] = v
-			}
-		}
-		c.auditAgainstReference(r, a, "print.go", sub, nil, func(k string) bool { return directiveParser[k] })
+		c.auditAgainstReference(r, a, "print.go", fork, nil, only)
 		delete(base, "print.go")
 	}
-	c.compareWithReference(r, base, nil, func(k string) bool { return directiveParser[k] })
+	if stale["format.go"] {
+		cur, err := os.ReadFile(filepath.Join(c.P.Dir, "internal/rfmt/format.go"))
+		a := &auditor{own: ownNames(filepath.Join(c.P.Dir, "internal/rfmt"))}
+		fork, err2 := a.auditFuncs("format.go", string(cur), "fork")
+		if err != nil || err2 != nil {
+			r.Undecide("cannot parse format.go")
+			return []*report.Result{r}
+		}
+		c.auditAgainstReference(r, a, "format.go", fork, nil, only)
+		delete(base, "format.go")
+	}
+	c.compareWithReference(r, base, nil, only)
 	r.Analysed = fmt.Sprintf("references: %s", c.oracleDir())
 	return []*report.Result{r}
 }
